@@ -199,7 +199,33 @@ def run(prog: Program, chk: Check):
         # the byte count of every receive is compared with the expected size before success
         v = path_of(n.ast.targets[0]) if isinstance(n.ast, ast.Assign) else None
         tests = [t for t in dg.nodes if t.kind == "test" and v and v in flow.access_paths(t.ast)]
-        F.decide(bool(tests), fkey(rd, f"recv-checked:{norm(n.ast)[:60]}"), where(rd, n.ast), "receive length is checked", "a receive's byte count is not checked")
+        # ... and the comparison is against the size that was asked for: a client that dies in the middle of a frame leaves a
+        # short but non-zero read, so `if not nbytes:` would take a partial header / payload for a complete one
+        rcall = [c for c in node_calls(n) if is_method_call(c, ("recv_into", "recv"))][0]
+        size = rcall.args[1] if rcall.func.attr == "recv_into" and len(rcall.args) > 1 else (rcall.args[0] if rcall.func.attr == "recv" and rcall.args else None)
+        exact = bool(tests) and size is not None and v is not None
+        if exact:
+            restore = {m.id for m in dg.nodes if m is not n and v in flow.stores_of(m)}
+            live = flow.reach(dg, [n.id], blocked=restore, blocked_pass_exc=False)
+            near = [t for t in tests if t.id in live]
+            # the first test on the count reached from the receive: its continuing edge(s) must establish count == size
+            firsts = [t for t in near if not any(o.id in flow.reach(dg, [n.id], blocked=restore | {t.id}, blocked_pass_exc=False) and t.id in flow.reach(dg, [o.id], blocked=restore, blocked_pass_exc=False) and o is not t for o in near)]
+            goal = guards.parse(f"{v} == {norm(size)}") if rcall.func.attr == "recv_into" else guards.parse(f"len({v}) == {norm(size)}")
+            exact = bool(firsts)
+            for t in firsts:
+                for e in dg.succ[t.id]:
+                    if e.kind == "exc" or e.cond is None:
+                        continue
+                    # the branch that handles the short read ends in `return False` after removing the module
+                    if guards.implies([(e.cond, e.pol)], goal) or guards.implies([(e.cond, e.pol)], guards.parse(f"not ({norm(goal.left)} < {norm(size)})")):
+                        continue  # the continuing edge: the whole size arrived (a receive never returns more than was asked for)
+                    # any other edge must be the short-read handling: every normal path from it ends in `return False`
+                    fr_ids = {x.id for x in false_rets}
+                    r2 = flow.reach(dg, [e.dst], blocked=fr_ids, follow=lambda x: x.kind != "exc", blocked_pass_exc=False)
+                    if dg.exit.id in r2 and e.dst not in fr_ids:
+                        exact = False
+        F.decide(exact, fkey(rd, f"recv-checked:{norm(n.ast)[:60]}"), where(rd, n.ast), "the received byte count is compared with the requested size before the data is used",
+                 "a receive's byte count is not compared with the size that was requested (a short, non-zero read would pass for a complete one)")
     # (2) ConnectionError handlers around sends and reads
     nh = 0
     for f in mm.methods.values():
